@@ -325,6 +325,10 @@ fn script_for(term: &mut Term, frame: &[u8], plan: &Value) -> (Vec<Vec<u8>>, Str
                             term.booked += amt.saturating_sub(released);
                         }
                         frames.push(status_from(plan.get("status").unwrap_or(&empty), Some(receipt as usize)).zvt_serialize());
+                        // optionally a further status information (what it says supersedes the first one as a whole)
+                        if let Some(s2) = plan.get("status2") {
+                            frames.push(status_from(s2, None).zvt_serialize());
+                        }
                         frames.push(completion());
                     }
                 }
